@@ -20,6 +20,14 @@ CLAIMED = {
          "authenticator. Substantially decides the property's own static quantifier; server/ssl behaviour is assumed.",
     technique="call-graph guarded reachability + CFG dominance/edge facts + finite-domain path enumeration (AST, no execution)",
     ref="4/C10"),
+ "C05": dict(
+    text="Ownership and loop-shape facts that make the reply readers functions of the byte stream alone, for every recv() schedule: "
+         "M1 recv is called only in the line reader and the block reader; M2 only they touch the read buffer; M3 the block reader's recv sits "
+         "in a loop that ends only when the requested size is accumulated, asks for the remaining count and consumes buffered bytes first; "
+         "M4 the line reader's loop has 'delimiter found' as only normal exit and splits the buffer exactly at the delimiter; M5 literal sizes "
+         "reach the block reader unchanged from a digits-only pattern group. Substantially decides the property given the trusted model of socket.recv.",
+    technique="effect ownership (who-may-call / who-may-write) + CFG cycle and exit classification + regex group analysis",
+    ref="4/C05"),
 }
 NA = {}
 
